@@ -45,6 +45,20 @@ def sequential(ev, cloudf="default", det=525.0):
     return np.asarray([o[0] for o in out]), np.array([o[1] for o in out])
 
 
+def first_natural_failure(ev, det=525.0):
+    """Index and exception of the first event whose one-at-a-time evaluation raises with the
+    default (fault-free) cloud function, or None."""
+    from nuspacesim.simulation.eas_optical.cphotang import CphotAng
+
+    k, cloudf = CphotAng(det), sched.VaryingCloud()
+    for i, e in enumerate(zip(*ev)):
+        try:
+            k.run(*e, cloudf)
+        except BaseException as ex:  # StopIteration etc. included
+            return i, ex
+    return None
+
+
 def batch(ev, cloudf="default", det=525.0, kernel=None):
     from nuspacesim.simulation.eas_optical.cphotang import CphotAng
 
@@ -81,7 +95,27 @@ def shard(ctx, si, payload):
     sizes = payload.get("sizes", [1, 2, 99, 100, 101, 250])
     nmax = max(sizes + [40, 25])
     ev_all = make_events(ctx.subrng("c10-events"), 250 if nmax <= 250 else nmax)
-    seq_all = sequential(ev_all)
+    # an event of the fault-free workload that raises when evaluated alone (seen only on changed
+    # trees, for the NaN cloud tops) must make the batch call raise too; the remaining monitors
+    # then run without NaN cloud tops
+    nf = first_natural_failure(ev_all) if fam in ("sync-partitions", "faults") else None
+    if nf is not None:
+        i, ex = nf
+        ctx.obs["event_raising_when_evaluated_alone"] = {"event": i, "cloud_top": repr(sched.varying_top(i)), "exception": f"{type(ex).__name__}: {ex}"[:200]}
+        for name, kw in (("synchronous", {"scheduler": "synchronous"}), ("threads-4", {"scheduler": "threads", "num_workers": 4})):
+            n = min(len(ev_all[0]), i + 120)
+            ctx.count("natural-fault")
+            try:
+                with dask.config.set(**kw):
+                    got = batch(tuple(x[:n] for x in ev_all))
+            except Exception:
+                continue
+            ctx.violation("faults", f"{name}: event {i} of {n} (cloud top {sched.varying_top(i)!r}) raises {type(ex).__name__} when evaluated alone, but the batch call returned normally with {got[0].shape[0] if got[0].ndim else 'scalar'} results", {"scheduler": name, "n": n, "position": i, "natural": True})
+    try:
+        seq_all = sequential(ev_all)
+    except BaseException:
+        sched.NAN_TOPS = False
+        seq_all = sequential(ev_all)
     sub = lambda n: tuple(x[:n] for x in ev_all)
     seqn = lambda n: (seq_all[0][:n], seq_all[1][:n])
 
@@ -200,9 +234,12 @@ def shard(ctx, si, payload):
     elif fam == "faults":
         schedulers = payload["schedulers"]
         cases = [(25, p) for p in payload["pos25"]] + [(250, p) for p in payload["pos250"]]
-        for name, kw in schedulers:
-            for ci_, (n, pos) in enumerate(cases):
-                exc = sched.FAULT_TYPES[(ci_ + len(name)) % len(sched.FAULT_TYPES)]
+        # StopIteration is the one exception type that builtin map / list treat as "end of data":
+        # it gets every position under every scheduler, the other types rotate
+        plan = [(name, kw, n, pos, sched.FAULT_TYPES[(ci_ + len(name)) % len(sched.FAULT_TYPES)]) for name, kw in schedulers for ci_, (n, pos) in enumerate(cases)]
+        plan += [(name, kw, n, pos, StopIteration) for name, kw in schedulers for (n, pos) in cases]
+        for name, kw, n, pos, exc in plan:
+            if True:
                 ctx.count("faults")
                 ctx.distinct.add(("fault", name, n, pos, exc.__name__))
                 try:
